@@ -26,6 +26,8 @@ the status says so; never a violation by itself):
 Usable standalone (`python3 translate/gen_C04_vtable.py [repo]`) and from lib/vf/props/C04.py (`write(repo, verif)`).
 """
 import os, re, sys, json, unicodedata
+sys.path.insert(0, os.path.dirname(os.path.abspath(__file__)))
+import strict
 
 HERE = os.path.dirname(os.path.abspath(__file__))
 VERIF = os.path.dirname(HERE)
@@ -98,6 +100,72 @@ def parse_params(ptxt):
     return out
 
 
+def account_vtable_struct(body, fields):
+    """consume-everything: every member declaration of struct ProblemVTable is one of the forms below; the function-pointer fields are
+    exactly the parsed ones (in order), the static declarations are calc_ŷ_dᵀŷ followed by the default of every optional field (in
+    field order), the constructor consists of the REQUIRED / OPTIONAL macro lines between its three fixed statements"""
+    K = strict.lit
+    try:
+        members = strict.split_statements(body[body.index("{") + 1:body.rindex("}")])
+        seen_fields, seen_statics, ctor_body = [], [], None
+        for m_ in members:
+            fm = re.fullmatch(r"(?:required|optional)_function_t\s*<.*>\s*(%s)\s*(?:=\s*%s\s*)?;" % (ID, ID), m_, re.S)
+            sm = re.fullmatch(r"ALPAQA_EXPORT\s+static\s+[^;()]*?\b(%s)\s*\([^;{}]*\)\s*;" % ID, m_, re.S)
+            cm = re.fullmatch(r"template\s*<class P>\s*ProblemVTable\s*\(std::in_place_t, P &p\)\s*:\s*util::BasicVTable\{std::in_place, p\}\s*\{(.*)\}", m_, re.S)
+            if fm:
+                seen_fields.append(fm.group(1))
+            elif sm:
+                seen_statics.append(sm.group(1))
+            elif cm:
+                if ctor_body is not None:
+                    raise OutOfGrammar("two constructors of ProblemVTable")
+                ctor_body = cm.group(1)
+            elif not any(re.fullmatch(K(k), m_) for k in (
+                    "USING_ALPAQA_CONFIG(Conf);", "using Sparsity = alpaqa::Sparsity<config_t>;", "using Box = alpaqa::Box<config_t>;",
+                    "template <class F> using optional_function_t = util::BasicVTable::optional_function_t<F, ProblemVTable>;",
+                    "length_t n, m;", "ProblemVTable() = default;")):
+                raise OutOfGrammar("member of ProblemVTable outside the grammar: %r" % m_[:80])
+        # the members come in this order: config macro, the two aliases, the optional_function_t alias, the function-pointer fields, the
+        # static declarations, the dimensions, the constructor, the defaulted constructor — each fixed member exactly once
+        kind = lambda m_: ("field" if re.match(r"(required|optional)_function_t\s*<", m_) else "static" if m_.startswith("ALPAQA_EXPORT") else
+                           "ctor" if m_.startswith("template <class P>") or m_.startswith("template<class P>") else m_)
+        shape, prev = [], None
+        for m_ in members:
+            k_ = kind(m_)
+            if k_ != prev or k_ not in ("field", "static"):
+                shape.append(k_)
+            prev = k_
+        want_shape = ["USING_ALPAQA_CONFIG(Conf);", "using Sparsity = alpaqa::Sparsity<config_t>;", "using Box = alpaqa::Box<config_t>;",
+                      "template <class F> using optional_function_t = util::BasicVTable::optional_function_t<F, ProblemVTable>;",
+                      "field", "static", "length_t n, m;", "ctor", "ProblemVTable() = default;"]
+        if [" ".join(x.split()) for x in shape] != want_shape:
+            raise OutOfGrammar("members of ProblemVTable are not in the known order: %s" % [x[:30] for x in shape])
+        if seen_fields != [f_["name"] for f_ in fields]:
+            raise OutOfGrammar("function-pointer members of ProblemVTable: %s parsed, %s declared" % ([f_["name"] for f_ in fields], seen_fields))
+        want = [CALC] + [f_["default"] for f_ in fields if not f_["required"]]
+        if seen_statics != want:
+            raise OutOfGrammar("static declarations of ProblemVTable are %s, expected %s" % (seen_statics, want))
+        for m_ in members:
+            sm = re.fullmatch(r"ALPAQA_EXPORT\s+static\s+([^;()]*?)\s*\b(%s)\s*\((.*)\)\s*;" % ID, m_, re.S)
+            if not sm:
+                continue
+            if sm.group(2) == CALC:
+                wt, wr = ["void *", "rvec", "crvec", "crvec", "ProblemVTable"], "real_t"
+            else:
+                f_ = [x for x in fields if x["default"] == sm.group(2)][0]
+                wt, wr = ["void *"] + [t for t, _ in f_["params"]] + ["ProblemVTable"], f_["ret"]
+            if [t for t, _ in parse_params(sm.group(3))] != wt or " ".join(sm.group(1).split()) != " ".join(wr.split()):
+                raise OutOfGrammar("static declaration of %s does not have the signature of its vtable entry" % sm.group(2))
+        if ctor_body is None:
+            raise OutOfGrammar("constructor of ProblemVTable not found")
+        strict.account(strict.split_statements(ctor_body),
+                       [("vtable", K("auto &vtable = *this;"), "1"),
+                        ("macros", r"ALPAQA_TE_(REQUIRED|OPTIONAL)_METHOD\s*\(\s*vtable\s*,\s*P\s*,\s*%s\s*(,\s*p\s*)?\)\s*;" % ID, "*"),
+                        ("n", K("vtable.n = p.get_n();"), "1"), ("m", K("vtable.m = p.get_m();"), "1")], "constructor of ProblemVTable")
+    except strict.Unaccounted as ex:
+        raise OutOfGrammar(str(ex))
+
+
 def parse_header(src):
     src_nc = strip_comments(src)
     m = re.search(r"struct\s+ProblemVTable\s*:[^{]*\{", src_nc)
@@ -129,6 +197,7 @@ def parse_header(src):
                            ret=sm.group(1).strip(), params=parse_params(sm.group(2))))
     if not fields:
         raise OutOfGrammar("no vtable fields parsed")
+    account_vtable_struct(body, fields)
     ctor = {}
     for cm in re.finditer(r"ALPAQA_TE_(REQUIRED|OPTIONAL)_METHOD\s*\(\s*vtable\s*,\s*P\s*,\s*(%s)\s*(?:,\s*p\s*)?\)" % ID, body):
         ctor.setdefault(cm.group(2), []).append(cm.group(1).lower())
@@ -352,15 +421,16 @@ class P:
                 if len(a) != 1 or a[0][0] != "num":
                     raise OutOfGrammar("real_t(...) of a non-literal")
                 return ("num", a[0][1])
-            if self.at("{"):      # braced construction (sparsity::Dense<config_t>{...}): opaque
-                d = 0
+            if self.at("{"):      # braced construction (sparsity::Dense<config_t>{...}): opaque, its tokens kept as text
+                d, txt = 0, []
                 while True:
                     t2 = self.eat()
+                    txt.append(t2[1])
                     if t2[1] == "{": d += 1
                     if t2[1] == "}":
                         d -= 1
                         if d == 0: break
-                return ("opaque", name)
+                return ("opaque", name, " ".join(txt))
             e = ("var", name)
             if self.at("("):
                 e = ("call", name, self.args())
@@ -379,11 +449,27 @@ class P:
                 return e
 
 
+def always_leaves(stmts):
+    """does the statement list always end in return / throw?  A statement after a point that always leaves is out of grammar"""
+    for k, st in enumerate(stmts):
+        leaves = st[0] in ("return", "throw") or (st[0] == "if" and st[3] is not None and always_leaves(st[2]) and always_leaves(st[3]))
+        if st[0] == "if":
+            always_leaves(st[2]); always_leaves(st[3] or [])
+        if st[0] == "for":
+            always_leaves(st[3])
+        if leaves:
+            if k + 1 < len(stmts):
+                raise OutOfGrammar("statement after a return / throw (unreachable)")
+            return True
+    return False
+
+
 def parse_body(text):
     p = P(tokenize("{" + text + "}"))
     stmts = p.block()
     if p.peek()[0] != "eof":
         raise OutOfGrammar("trailing tokens after body")
+    always_leaves(stmts)
     return stmts
 
 
@@ -415,6 +501,46 @@ def throws_in(node, acc):
 
 
 STR = re.compile(r'"([^"\\]*)"')
+
+
+M_IS_0 = ("bin", "==", ("field", ("var", "vtable"), "m"), ("num", "0"))
+M_NOT_0 = ("bin", "!=", ("field", ("var", "vtable"), "m"), ("num", "0"))
+DENSE_HESS = "{ vtable . n , vtable . n , sparsity :: Symmetry :: Upper }"
+DENSE_RETURNS = {"default_get_jac_g_sparsity": "{ vtable . m , vtable . n }", "default_get_hess_L_sparsity": "{ vtable . n , vtable . n , sparsity :: Symmetry :: Upper }"}
+
+
+def is_throw(st, name, strs):
+    e = st[1] if st[0] == "throw" else None
+    return bool(e) and e[0] == "call" and e[1] == "not_implemented_error" and len(e[2]) == 1 and e[2][0][0] == "var" \
+        and e[2][0][1].startswith("STR_") and strs[int(e[2][0][1][4:])] == name[len("default_"):]
+
+
+def pin_default(name, stmts, strs, params):
+    """consume-everything for the defaults that are classified, not translated: the parsed body is exactly one of the known shapes
+         (empty) | throw not_implemented_error("X"); | if (vtable.m != 0) throw ..;
+         | if (vtable.m == 0 && vtable.F != default_F) return vtable.F(self, <named parameters>, vtable);  throw ..; | return Dense{n, n, Upper};
+         | return <known literal / dense sparsity>;"""
+    named = [nm for _, nm in params if nm is not None]
+    if not stmts or (len(stmts) == 1 and is_throw(stmts[0], name, strs)):
+        return
+    if len(stmts) == 1 and stmts[0][0] == "if" and stmts[0][1] == M_NOT_0 and stmts[0][3] is None and len(stmts[0][2]) == 1 and is_throw(stmts[0][2][0], name, strs):
+        return
+    if len(stmts) == 2 and stmts[0][0] == "if" and stmts[0][3] is None and len(stmts[0][2]) == 1 and stmts[0][2][0][0] == "return":
+        c, ret = stmts[0][1], stmts[0][2][0][1]
+        if c[0] == "bin" and c[1] == "&&" and c[2] == M_IS_0 and c[3][0] == "bin" and c[3][1] == "!=" and c[3][2][0] == "field" \
+                and c[3][2][1] == ("var", "vtable") and c[3][3][0] == "var" and c[3][3][1].split("::")[-1] == "default_" + c[3][2][2] \
+                and ret and ret[0] == "method" and ret[1] == ("var", "vtable") and ret[2] == c[3][2][2] \
+                and ret[3] == [("var", a) for a in named] and named[:1] == ["self"] and named[-1:] == ["vtable"]:
+            tail = stmts[1]
+            if is_throw(tail, name, strs) or (tail[0] == "return" and tail[1] and tail[1][0] == "opaque" and tail[1][1].startswith("sparsity::Dense") and tail[1][2] == DENSE_HESS):
+                return
+    if len(stmts) == 1 and stmts[0][0] == "return" and stmts[0][1]:
+        r = stmts[0][1]
+        if r[0] == "opaque" and r[1].startswith("sparsity::Dense") and DENSE_RETURNS.get(name) == r[2]:
+            return
+        if r[0] == "var" and r[1].startswith("STR_") and name == "default_get_name":
+            return
+    raise OutOfGrammar("%s: body is not one of the known shapes of a classified default" % name)
 
 
 def protect_strings(text):
@@ -644,6 +770,8 @@ class Exec:
         if lhs[0] != "var":
             raise OutOfGrammar("%s: assignment target" % self.sig.name)
         name = self.resolve(lhs[1], alias)
+        if any(n == name and t in IN_TYPES for t, n in self.sig.params):
+            raise OutOfGrammar("%s: assignment to the input parameter %s" % (self.sig.name, name))
         if op == "=":
             env[name] = self.expr(rhs, env, alias, sz, binds)
             return
@@ -795,6 +923,8 @@ class Exec:
             if t in OUT_TYPES:
                 if a[0] != "var":
                     raise OutOfGrammar("%s: output argument of %s is not a variable" % (self.sig.name, callee))
+                if self.resolve(a[1], alias) not in env:
+                    raise OutOfGrammar("%s: output argument %s of %s is not a declared buffer" % (self.sig.name, a[1], callee))
                 outs.append((n, self.resolve(a[1], alias)))
         r = self.fresh()
         fname = "gcalc" if callee == CALC else "gvt_" + gid(callee)
@@ -994,6 +1124,90 @@ ROLE = {"x.data()": "x", "param.data()": "p", "y.data()": "y", "Σ.data()": "Σ"
 ROLE_DIM = {"x": "n", "p": "p", "y": "m", "Σ": "m", "s": "1", "v": "n", "zl": "m", "zu": "m"}
 
 
+def account_casadi(tpp, loads, calls):
+    """consume-everything for the CasADi part: (1) every entry of the CasADiFunctionsWithParam{...} initialiser is a dimension, the
+    moved `g`, or one of the parsed loads (with its output dimensions: fixed text per function); (2) every member function that
+    evaluates a loaded function has one of the known bodies around its call site"""
+    K = strict.lit
+    try:
+        m = re.search(r"CasADiFunctionsWithParam\s*\{", tpp[tpp.index("std::make_unique<CasADiFunctionsWithParam>"):])
+        i = tpp.index("std::make_unique<CasADiFunctionsWithParam>") + m.end() - 1
+        ents, cur, dep = [], "", 0
+        for ch in tpp[i + 1:balanced(tpp, i) - 1]:            # top-level commas (template argument lists count as brackets here)
+            dep += ch in "([{<"
+            dep -= ch in ")]}>"
+            if ch == "," and dep == 0:
+                ents.append(cur); cur = ""
+            else:
+                cur += ch
+        ents = [e for e in ents + [cur] if e.strip()]
+        seen, order = [], []
+        for e in ents:
+            e = " ".join(e.split())
+            order.append(re.match(r"\.(%s) =" % ID, e).group(1) if re.match(r"\.(%s) =" % ID, e) else e)
+            lm = re.fullmatch(r"\.(%s) = (?:wrapped_load|try_load)<CasADiFunctionEvaluator<Conf, ?\d+, ?\d+>>\( ?loader, ?\"\w+\", ?dims\(.*\), ?dims\((.*)\)\)" % ID, e)
+            if lm:
+                seen.append(lm.group(1))
+                if "".join(lm.group(2).split()) != CASADI_OUT_DIMS.get(lm.group(1)):
+                    raise OutOfGrammar("casadi load of %s: output dimensions %r" % (lm.group(1), lm.group(2)))
+            elif e not in (".n = n", ".m = m", ".p = p", ".g = std::move(g)"):
+                raise OutOfGrammar("casadi: entry %r of the function table initialiser" % e[:60])
+        if order != CASADI_TABLE_ORDER:
+            raise OutOfGrammar("casadi: members initialised %s, known %s" % (order, CASADI_TABLE_ORDER))
+        if seen != list(loads) or seen != list(CASADI_OUT_DIMS):
+            raise OutOfGrammar("casadi: loads in the initialiser %s, parsed %s, known %s" % (seen, list(loads), list(CASADI_OUT_DIMS)))
+        # a required function (wrapped_load) is called directly, an optional one (try_load) through the pointer after a guard
+        CALL = r"(\(\*impl->(?:%s)\)|impl->(?:%s))\s*\(\{[^{}]*\},\s*\{([^{}]*)\}\);" % (ID, ID)
+        fun_of = lambda c: re.sub(r"[()*]|impl->", "", c.group(1))
+        direct = lambda c: not c.group(1).startswith("(")
+        n_sites = 0
+        for fm in re.finditer(r"CasADiProblem<Conf>::(%s)\s*\(" % ID, tpp):
+            j = balanced(tpp, fm.end() - 1, "(", ")")
+            k = tpp.find("{", j)
+            semi = tpp.find(";", j)
+            if k < 0 or 0 <= semi < k:
+                continue
+            body = tpp[k + 1:balanced(tpp, k) - 1]
+            if not re.search(r"impl->%s\)?\s*\(\s*\{" % ID, body):
+                continue
+            st = strict.split_statements(body)
+            n_sites += len(re.findall(r"impl->%s\)?\s*\(\s*\{" % ID, body))
+            returns_value = re.search(r"->\s*real_t\s*$", tpp[j:k]) is not None or re.search(r"\breal_t\s*$", tpp[max(0, fm.start() - 80):fm.start()]) is not None
+            ok = False
+            d = re.fullmatch(r"real_t (%s);" % ID, st[0]) if st else None
+            g = re.fullmatch(r"if \(!impl->(%s)\) throw std::logic_error\(\"[^\"]*\"\);" % ID, st[0]) if st else None
+            if d and len(st) == (3 if returns_value else 2):             # real_t v; impl->F({..}, {&v ..}); [return v;  iff the function returns a value]
+                c = re.fullmatch(CALL, st[1])
+                ok = bool(c) and direct(c) and re.match(r"&%s\b" % re.escape(d.group(1)), c.group(2).strip()) is not None and \
+                    (len(st) == 2 or st[2] == "return %s;" % d.group(1))
+            elif g and len(st) == 2 and not returns_value:                # if (!impl->F) throw ..; (*impl->F)({..}, {..});
+                c = re.fullmatch(CALL, st[1])
+                ok = bool(c) and not direct(c) and fun_of(c) == g.group(1) and "&" not in c.group(2)
+            elif g and len(st) == 4 and returns_value:                    # if (!impl->F) throw ..; real_t v; (*impl->F)({..}, {&v, ..}); return v;
+                d2 = re.fullmatch(r"real_t (%s);" % ID, st[1])
+                c = re.fullmatch(CALL, st[2])
+                ok = bool(d2) and bool(c) and not direct(c) and fun_of(c) == g.group(1) and re.match(r"&%s\b" % re.escape(d2.group(1)), c.group(2).strip()) is not None \
+                    and st[3] == "return %s;" % d2.group(1)
+            elif len(st) == 2 and (re.fullmatch(K("if (impl->m == 0) return;"), st[0]) or
+                                   re.fullmatch(r"if \(impl->m == 0\) \{ %s\.setZero\(\); return; \}" % ID, st[0])):
+                c = re.fullmatch(r"if \(impl->(%s)\) %s else throw not_implemented_error\(\"[^\"]*\"\);" % (ID, CALL), st[1])
+                ok = bool(c) and not returns_value and c.group(2) == "(*impl->%s)" % c.group(1) and "&" not in c.group(3)
+            if not ok:
+                raise OutOfGrammar("casadi: body of CasADiProblem::%s is not one of the known shapes around its call site" % fm.group(1))
+        if n_sites != len(calls):
+            raise OutOfGrammar("casadi: %d call sites parsed, %d inside accounted member functions" % (len(calls), n_sites))
+    except (strict.Unaccounted, ValueError, IndexError) as ex:
+        raise OutOfGrammar("casadi: %s" % ex)
+
+
+# output dimensions of the loaded functions (not part of casadi_calls; fixed text, checked)
+CASADI_OUT_DIMS = {"f": "1", "f_grad_f": "1,n", "grad_g_prod": "n", "jac_g": "dim(m,n)", "grad_L": "n", "hess_L_prod": "n", "hess_L": "dim(n,n)",
+                   "ψ": "1,m", "ψ_grad_ψ": "1,n", "hess_ψ_prod": "n", "hess_ψ": "dim(n,n)"}
+
+
+CASADI_TABLE_ORDER = ["n", "m", "p", "f", "f_grad_f", "g", "grad_g_prod", "jac_g", "grad_L", "hess_L_prod", "hess_L", "ψ", "ψ_grad_ψ", "hess_ψ_prod", "hess_ψ"]
+
+
 def parse_casadi(tpp, py):
     tpp = re.sub(r"#if 0.*?#else", "", strip_comments(tpp), flags=re.S)
     loads = {}
@@ -1009,6 +1223,7 @@ def parse_casadi(tpp, py):
         # enclosing member function
         hm = list(re.finditer(r"CasADiProblem<Conf>::(%s)\s*\(" % ID, tpp[:m.start()]))
         calls.append(dict(member=hm[-1].group(1) if hm else "?", fun=m.group(1), roles=[ROLE.get(a, "<%s>" % a) for a in args]))
+    account_casadi(tpp, loads, calls)
     decl = {}
     for m in re.finditer(r"cs\.Function\(\s*\"(\w+)\"\s*,", py):
         j = balanced(py, py.rfind("(", 0, m.end()), "(", ")")
@@ -1045,6 +1260,8 @@ def generate(repo):
             continue
         txt, strs = protect_strings(f["body"])
         kinds[n[len("default_"):]] = classify(n, parse_body(txt), strs)
+        if n[len("default_"):] not in GENERATED and n != "default_eval_hess_ψ_prod":        # those are translated statement by statement
+            pin_default(n, parse_body(txt), strs, f["params"])
     gtext, graph, inout = gen_functions(hdr, funs)
     htext, hthrown = gen_hess(hdr, funs)
     status = dict(out_of_grammar=[], fields=len(hdr["fields"]), defaults=len(kinds), graph=graph, inout={k: v for k, v in inout.items() if v})
@@ -1112,7 +1329,7 @@ def write(repo=None, verif=None):
     """returns status dict; status['status'] = 'ok' | 'translator-out-of-grammar' (reference text written)"""
     repo = repo or os.environ.get("VERIF_REPO", "/repo")
     verif = verif or VERIF
-    outfile = os.path.join(verif, "coq", "gen", "VtableGen.v")
+    outfile = os.path.join(os.environ.get("VERIF_GEN_OUT") or os.path.join(verif, "coq", "gen"), "VtableGen.v")
     try:
         txt, st = generate(repo)
         st["status"] = "ok"
